@@ -66,15 +66,29 @@ def _run(api, progress_type, n_fail=None):
         eom.armed = True
         oqupy.compute_dynamics_with_field(mfs, initial_field=0.1 + 0j, dt=0.1, num_steps=6,
                                           initial_state_list=[rho], progress_type=progress_type)
+    elif api == 'PtTempo':
+        # a user correlation function that fails at its n-th evaluation: n = 1 is inside the back end's initialize() (the first
+        # influence tensors), larger n inside the step loop
+        corrf = FailAt(n_fail or 1, lambda t: np.exp(-2.0 * abs(t)) * (1.0 - 0.5j * np.sign(t)))
+        bath = oqupy.Bath(0.5 * sz, oqupy.CustomCorrelations(corrf))
+        par = oqupy.TempoParameters(dt=0.1, dkmax=3, epsrel=1e-3)
+        p = oqupy.PtTempo(bath, 0.0, 0.6, par)
+        corrf.armed = True
+        p.compute(progress_type=progress_type)
     else:
         raise KeyError(api)
 
 
 def leak(inp):
     api = inp.get('api')
-    api = {'PtTempo': 'Tempo', 'GibbsTempo': 'Tempo', 'PtTebd': 'Tempo'}.get(api, api)
+    if 'PtTempo' in str(inp.get('obligation', '')) + str(inp.get('target', '')):
+        api = 'PtTempo'
+    api = {'GibbsTempo': 'Tempo', 'PtTebd': 'Tempo'}.get(api, api)
     leaks = []
-    for ptype, nf in (('bar', None), ('bar', 2), ('bar', 6), ('simple', None), ('silent', None)):
+    cases = (('bar', None), ('bar', 2), ('bar', 6), ('simple', None), ('silent', None))
+    if api == 'PtTempo':
+        cases = (('bar', 1), ('bar', 1500), ('bar', 4000), ('simple', 1), ('silent', 1))
+    for ptype, nf in cases:
         before = set(_alive_timers())
         buf = io.StringIO()
         failed = False
